@@ -948,6 +948,7 @@ func genFacts(repo string) string {
 		}
 	}
 	sb.WriteString("\n]\n")
+	sb.WriteString(genCloseFacts(repo)) // C03: close-path facts (closefacts.go)
 	sb.WriteString("\nend Mieru.Gen.Facts\n")
 	return sb.String()
 }
